@@ -349,7 +349,11 @@ def run_property(prop, tier, seed, impl="py", only=None):
                     rep.errors.append("%s: proved symbolically but fails natively on %s: %s (engine unsound?)"
                                       % (tag, json.dumps(f["inputs"]), f["detail"]))
             if r["pass"] == 0 and not h.native_optional:
-                rep.errors.append("%s: native cross-check exercised zero cases (precondition never satisfied)" % tag)
+                if h.id in rep.tainted:
+                    rep.out("  consequence: %s could not be cross-checked natively (its assumptions rely on a callee "
+                            "whose own obligation fails in this run)" % tag)
+                else:
+                    rep.errors.append("%s: native cross-check exercised zero cases (precondition never satisfied)" % tag)
             continue
         if kind == "standin":
             rep.standins.append({"harness": h.id, "case": cname, "cases": r["pass"], "skipped": r["skip"],
